@@ -108,12 +108,16 @@ fn __verif_n_c16_layout() {
     inputs.extend(e2e_corpus::e2e_programs(env!("CARGO_MANIFEST_DIR")));
     let (mut programs, mut n, mut behind) = (0u64, 0usize, 0usize);
     let mut fails: Vec<(String, String)> = vec![];
+    let mut not_compiled: Vec<String> = vec![];
     for (name, src) in inputs {
+        let name2 = name.clone();
         let h = std::thread::Builder::new().stack_size(128 << 20).spawn(move || catch_unwind(AssertUnwindSafe(|| check(&src)))).unwrap();
+        let name = name2;
         match h.join() {
             Ok(Ok(Some(Ok((a, b))))) => { programs += 1; n += a; behind += b; }
             Ok(Ok(Some(Err(w)))) => { programs += 1; fails.push((name, w)); }
-            _ => {}
+            // the hand-written boundary programs of corpus/c16 have to compile, otherwise the check is vacuous for them
+            _ => { if name.contains("/corpus/c16/") { not_compiled.push(name); } }
         }
     }
     let bound = format!("{programs} compiled Sierra programs (file corpus, e2e test files, corpus/c16), {n} relative immediate targets, {behind} of them behind the code");
@@ -122,6 +126,6 @@ fn __verif_n_c16_layout() {
         println!("VERIF-N id=N/n_c16_layout/relative_targets:{short} status=fail key=\"{}\" input=\"{input}\" detail=\"{short}: {}\" bound=\"{bound}\"", why.chars().take(80).collect::<String>().replace('"', "'"), why.replace('"', "'"));
     }
     if fails.is_empty() {
-        if n == 0 || behind == 0 { println!("VERIF-N id=N/n_c16_layout/relative_targets status=unknown"); } else { println!("VERIF-N id=N/n_c16_layout/relative_targets status=ok cases={n} distinct={programs} bound=\"{bound}\""); }
+        if n == 0 || behind == 0 || !not_compiled.is_empty() { println!("VERIF-N id=N/n_c16_layout/skip status=skip why=\"corpus/c16 programs that do not compile: {not_compiled:?}\""); println!("VERIF-N id=N/n_c16_layout/relative_targets status=unknown"); } else { println!("VERIF-N id=N/n_c16_layout/relative_targets status=ok cases={n} distinct={programs} bound=\"{bound}\""); }
     }
 }
